@@ -19,7 +19,7 @@ from wannierberri.result.tabresult import TABresult
 
 PROPERTY = "C12"
 LEVEL = "exploration"
-BUDGET = dict(quick=60, thorough=900)
+BUDGET = dict(quick=45, thorough=900)
 MAX_RUNS = dict(quick=4000, thorough=10 ** 7)
 RULE = ("each run draws a configuration (lattice/point group, grid or path, stub or real calculators, refinement "
         "history steered by a stub calculator) and a ray schedule (workers, task durations, start order, driver cost, "
